@@ -15,6 +15,8 @@ import (
 type caseT struct {
 	// Invalid names a construction rule the description breaks on purpose ("" = valid): NewSchema must reject it.
 	Invalid  string         `json:"invalid,omitempty"`
+	Mut      *mutCase       `json:"mut,omitempty"`      // configuration history of the object MutX (mutobj.go)
+	Scrubbed []string       `json:"scrubbed,omitempty"` // built-in scalars removed from the description (information only)
 	Desc     *gq.SchemaDesc `json:"schema"`
 	Initial  []string       `json:"initial"`
 	Appended []string       `json:"appended"`
@@ -575,6 +577,12 @@ func genCase(r *hx.Rng) caseT {
 	maxLayers := []int{2, 3, 5, 9}[r.Intn(4)]
 	decorate(r, s, maxLayers)
 	c := caseT{Desc: s, Salt: r.U64()}
+	if r.Chance(1, 3) {
+		c.Mut = addMutObject(r, s, maxLayers)
+	}
+	if r.Chance(1, 4) {
+		c.Scrubbed = scrubScalars(r, s)
+	}
 	if r.Chance(1, 12) {
 		c.Invalid = breakSchema(r, s)
 	}
@@ -641,6 +649,15 @@ func genCase(r *hx.Rng) caseT {
 		c.Initial, c.Appended = keep(c.Initial), keep(c.Appended)
 	}
 	dropPrefix("Held")
+	if c.Mut != nil { // nothing refers to MutX: it has to be supplied one way or the other
+		dropPrefix("MutX")
+		if r.Chance(1, 2) {
+			c.Initial = append(c.Initial, "MutX")
+		} else {
+			c.Appended = append(c.Appended, "MutX")
+			shuffle(r, c.Appended)
+		}
+	}
 	for _, pre := range []string{"Ao", "Oo", "Do"} {
 		if r.Chance(3, 4) {
 			dropPrefix(pre)
